@@ -73,7 +73,12 @@ fn peephole2_helper(lines: &[Line], index: usize, ret: &mut Vec<Line>) -> bool {
             func_id,
         } => {
             if index + 1 < lines.len()
-                && let Line::Instr { instr: instr2, .. } = &lines[index + 1]
+                && let Line::Instr {
+                    instr: instr2,
+                    lineno: lineno2,
+                    file_id: file_id2,
+                    func_id: func_id2,
+                } = &lines[index + 1]
             {
                 match (instr1, instr2) {
                     // PUSH POP
@@ -142,9 +147,9 @@ fn peephole2_helper(lines: &[Line], index: usize, ret: &mut Vec<Line>) -> bool {
                     (Instr::LoadOffset(offset), instr2) if instr2.second_arg_is_top() => {
                         ret.push(Line::Instr {
                             instr: instr2.clone().replace_second_arg(Reg::Offset(offset)),
-                            lineno,
-                            file_id,
-                            func_id,
+                            lineno: *lineno2,
+                            file_id: *file_id2,
+                            func_id: *func_id2,
                         });
                         true
                     }
@@ -154,9 +159,9 @@ fn peephole2_helper(lines: &[Line], index: usize, ret: &mut Vec<Line>) -> bool {
                     {
                         ret.push(Line::Instr {
                             instr: instr2.clone().replace_first_arg(Reg::Offset(offset)),
-                            lineno,
-                            file_id,
-                            func_id,
+                            lineno: *lineno2,
+                            file_id: *file_id2,
+                            func_id: *func_id2,
                         });
                         true
                     }
@@ -180,9 +185,9 @@ fn peephole2_helper(lines: &[Line], index: usize, ret: &mut Vec<Line>) -> bool {
                             instr: instr2
                                 .clone()
                                 .replace_second_arg_imm_int(instr1.get_imm_int()),
-                            lineno,
-                            file_id,
-                            func_id,
+                            lineno: *lineno2,
+                            file_id: *file_id2,
+                            func_id: *func_id2,
                         });
                         true
                     }
@@ -196,9 +201,9 @@ fn peephole2_helper(lines: &[Line], index: usize, ret: &mut Vec<Line>) -> bool {
                             instr: instr2
                                 .clone()
                                 .replace_second_arg_imm_float(instr1.get_imm_float()),
-                            lineno,
-                            file_id,
-                            func_id,
+                            lineno: *lineno2,
+                            file_id: *file_id2,
+                            func_id: *func_id2,
                         });
                         true
                     }
